@@ -20,7 +20,7 @@ META_KEY = "c07.tag"
 RULE_TAG = "pkg.onnxscript.rewriter.rule_name"
 
 SITES = ["main", "then", "else", "loop", "func", "deep", "deep_loop", "func_if"]
-WIRINGS = ["plain", "chain", "gout", "nested", "inter", "cross"]
+WIRINGS = ["plain", "chain", "gout", "nested", "inter", "cross", "dup"]
 EXTRAS = ["none", "pre", "post"]
 CLASHES = ["none", "diff", "same", "diff_sub"]
 
@@ -121,9 +121,11 @@ def _if(b, name, cond, out, then_nodes, then_out, else_nodes, else_out):
 
 def _body(kind, wiring, p, a, y, w, c, j, b):
     """-> (nodes, result value name, extra graph outputs [(name, shape)])"""
-    tp = _template(kind, p, a, y, w, j, b)
+    # "dup": every pattern input of the instance is the same value (Add(a, a), Mul(Add(a, a), a)): two pattern
+    # variables bound to one value; the rest of the block is wired like "plain"
+    tp = _template(kind, p, a, a, a, j, b) if wiring == "dup" else _template(kind, p, a, y, w, j, b)
     extra = []
-    if wiring in ("plain", "gout", "inter"):
+    if wiring in ("plain", "gout", "inter", "dup"):
         cn, t = tp["combine"]("")
         r = f"{p}_r"
         other = y if wiring != "inter" else tp["inter"]
@@ -165,6 +167,8 @@ def valid_combo(kind, site, wiring):
     if wiring in ("inter", "cross") and kind not in MULTI_NODE:
         return False
     if wiring == "gout" and site != "main":
+        return False
+    if wiring == "dup" and kind not in ("add", "addmul"):
         return False
     return True
 
